@@ -8,6 +8,8 @@
 package main
 
 import (
+	"regexp"
+	"strconv"
 	"encoding/json"
 	"fmt"
 	"os"
@@ -96,7 +98,7 @@ func runShard(sh Shard) *ShardResult {
 	r := &mc.Result{Outcomes: map[string]int64{}, Violations: map[string]*mc.Violation{}, Complete: true}
 	var per []BoundResult
 	for _, b := range bounds {
-		cfg := mc.Config{PreBound: b[0], FaultBound: b[1], NoCache: sh.NoCache, Delay: sh.Delay, MaxExecs: sh.MaxExecs, Seed: sh.Seed, Deadline: deadline, Cache: cache}
+		cfg := mc.Config{PreBound: b[0], FaultBound: b[1], MaxSteps: s.MaxSteps, NoCache: sh.NoCache, Delay: sh.Delay, MaxExecs: sh.MaxExecs, Seed: sh.Seed, Deadline: deadline, Cache: cache}
 		before := int64(cache.Len())
 		rb := mc.Explore(cfg, s.Body, s.Oracle)
 		r.Execs += rb.Execs
@@ -119,6 +121,10 @@ func runShard(sh Shard) *ShardResult {
 			}
 		}
 		per = append(per, BoundResult{Pre: b[0], Fault: b[1], Execs: rb.Execs, States: int64(cache.Len()) - before, Transitions: rb.Transitions, Complete: rb.Complete, WallS: rb.WallS})
+		if rb.Truncated > 0 {
+			rb.Complete = false // executions cut at the step horizon: the bound was not fully explored
+			per[len(per)-1].Complete = false
+		}
 		if !rb.Complete {
 			r.Complete = false
 			break
@@ -131,7 +137,7 @@ func runShard(sh Shard) *ShardResult {
 	out := &ShardResult{Shard: sh, Execs: r.Execs, States: r.States, Transitions: r.Transitions, Cuts: r.Cuts, MaxDepth: r.MaxDepth,
 		Outcomes: r.Outcomes, Fatal: r.Fatal, Complete: r.Complete, Truncated: r.Truncated, WallS: r.WallS, PerBound: per}
 	// default schedule as a sample
-	x := mc.Replay(nil, 0, s.Body)
+	x := mc.Replay(nil, s.MaxSteps, s.Body)
 	out.SampleTrace = x.Trace
 	if len(out.SampleTrace) > 60 {
 		out.SampleTrace = append(out.SampleTrace[:60], "…")
@@ -147,7 +153,7 @@ func runShard(sh Shard) *ShardResult {
 		// determinism: the same schedule must give the same trace and the same finding, 3 times
 		var ref []string
 		for i := 0; i < 3; i++ {
-			x := mc.Replay(v.Choices, 0, s.Body)
+			x := mc.Replay(v.Choices, s.MaxSteps, s.Body)
 			fs, _ := s.Oracle(x)
 			found := false
 			for _, f := range fs {
@@ -186,6 +192,8 @@ func main() {
 		fmt.Println(string(b))
 	case "replay":
 		replay(os.Args[2])
+	case "codec-ref":
+		fmt.Print(codecRef(os.Args[2]))
 	case "list":
 		var names []string
 		for n := range scen.Registry {
@@ -219,7 +227,7 @@ func replay(path string) {
 		os.Exit(2)
 	}
 	s := getScenario(f.Replay.Scenario)
-	x := mc.Replay(f.Replay.Choices, 0, s.Body)
+	x := mc.Replay(f.Replay.Choices, s.MaxSteps, s.Body)
 	for i, t := range x.Trace {
 		fmt.Printf("%4d %s\n", i, t)
 	}
@@ -256,6 +264,13 @@ func drive(id string) int {
 	}
 	c.Rule = plan.Rule
 	c.Assumptions = plan.Assumptions
+	if plan.Pre != nil {
+		if err := plan.Pre(c); err != nil {
+			fmt.Fprintln(os.Stderr, "MACHINERY:", err)
+			c.Finish()
+			return 2
+		}
+	}
 	results := make([]*ShardResult, len(shards))
 	errs := make([]string, len(shards))
 	var wg sync.WaitGroup
@@ -309,6 +324,13 @@ func drive(id string) int {
 			allComplete = false
 		}
 		for k, n := range r.Outcomes {
+			if m := reSeq.FindStringSubmatch(k); m != nil {
+				// a scenario that enumerates operation sequences inside one execution reports their number
+				q, _ := strconv.ParseInt(m[1], 10, 64)
+				c.Evaluations += q
+				c.Transitions += q
+				c.Extra["sequences_enumerated_in_"+r.Shard.Scenario] = q
+			}
 			c.Outcomes[r.Shard.Scenario+" => "+k] += n
 			distinctOutcomes[r.Shard.Scenario+" => "+k] = true
 		}
@@ -335,6 +357,12 @@ func drive(id string) int {
 			}
 		}
 	}
+	if plan.Post != nil {
+		if err := plan.Post(c); err != nil {
+			fmt.Fprintln(os.Stderr, "MACHINERY:", err)
+			machinery = true
+		}
+	}
 	c.DistinctN = int64(len(distinctOutcomes))
 	c.Extra["shards"] = perShard
 	c.Extra["bounds_completed"] = allComplete
@@ -345,6 +373,8 @@ func drive(id string) int {
 	}
 	return c.Finish()
 }
+
+var reSeq = regexp.MustCompile(`sequences=(\d+)`)
 
 func tail(s string, n int) string {
 	if len(s) > n {
